@@ -50,7 +50,7 @@ type schedWorld struct {
 	cancel  context.CancelFunc
 	workers int
 	running []string // ids of running work functions, oldest first
-	chans   map[string]chan error
+	chans   map[string][]chan error // per id, oldest run first (under finding D18 one occurrence id can be running twice)
 	undeliv int // completed, result not yet received by Step
 	last    scheduler.StepState
 	hasLast bool
@@ -60,7 +60,7 @@ type schedWorld struct {
 var errTransient = errors.New("transient repository failure")
 
 func newSchedWorld(workers int) *schedWorld {
-	w := &schedWorld{clk: vclock.New(T0), workers: workers, chans: map[string]chan error{}}
+	w := &schedWorld{clk: vclock.New(T0), workers: workers, chans: map[string][]chan error{}}
 	w.mem = inmemory.NewInMemoryRepository()
 	w.mem.VerifSetClock(w.clk)
 	w.mem.VerifSetRandStrGen(func() string { return w.next })
@@ -76,7 +76,7 @@ func newSchedWorld(workers int) *schedWorld {
 
 // newSchedCronWorld: the real Scheduler over scheduler.VolatileTaskRepo over a real CronStore.
 func newSchedCronWorld(workers int, r *rng.R) *schedWorld {
-	w := &schedWorld{clk: vclock.New(T0), workers: workers, chans: map[string]chan error{}}
+	w := &schedWorld{clk: vclock.New(T0), workers: workers, chans: map[string][]chan error{}}
 	exprs := []string{"*/5 * * * *", "0 */5 * * * *", "30 */5 * * * *", "@every 7m", "*/10 * * * *"}
 	for i := 1; i <= 4; i++ {
 		sched, raw, _ := parseCronExpr(rng.Pick(r, exprs))
@@ -462,7 +462,7 @@ func (d *simDispatcher) Dispatch(ctx context.Context, fetcher func(ctx context.C
 	// the work function starts
 	w.log(fmt.Sprintf("work %s %s %s", proto.Str(t.Id), proto.Time(w.clk.Now()), proto.Task(t)))
 	ch := make(chan error, 1)
-	w.chans[t.Id] = ch
+	w.chans[t.Id] = append(w.chans[t.Id], ch)
 	w.running = append(w.running, t.Id)
 	return ch, nil
 }
@@ -666,19 +666,33 @@ func (w *schedWorld) complete(id string, outcome string) {
 		}
 		id = w.running[0]
 	}
-	ch, ok := w.chans[id]
-	if !ok {
+	chs := w.chans[id]
+	if len(chs) == 0 {
 		return
 	}
-	delete(w.chans, id)
+	ch := chs[0]
+	if len(chs) == 1 {
+		delete(w.chans, id)
+	} else {
+		w.chans[id] = chs[1:]
+	}
 	for i, r := range w.running {
 		if r == id {
 			w.running = append(w.running[:i], w.running[i+1:]...)
 			break
 		}
 	}
+	// wait until the result has moved from "reserved" into the scheduler's event queue, so that results are
+	// queued in completion order (otherwise two completions race through their reserving goroutines)
+	_, res0 := w.sch.VerifQueueLen()
 	ch <- outcomeErr(outcome)
 	close(ch)
+	for i := 0; i < 4000; i++ {
+		if _, res := w.sch.VerifQueueLen(); res < res0 {
+			break
+		}
+		time.Sleep(50 * time.Microsecond)
+	}
 	w.undeliv++
 	w.log("complete " + proto.Str(id) + " " + outcome)
 }
